@@ -34,11 +34,12 @@ def check(prop, tier):
     run(v, prop, tier)
     # the frame machine supplies the attribution expectation in call trees (CtxWriteAttr, NoCrash)
     import frame
-    if tier != "quick":
-        ov = {"Ops": '{"CALL", "STOP", "REVERT"}', "CallKinds": frame.ALLK, "Targets": '{"a", "b", "pw"}', "Values": "{0}", "MaxInstr": "3", "MaxNodes": "4",
-              "MaxFailPos": "0", "JPInit": "{FALSE}"}
-        frame.INV["C14"] = ["TypeOK", "NoCrash", "CtxWriteAttr"]
-        frame.replay(v, "C14", ov, ["Berlin", "Cancun"], 1500)
+    q = tier == "quick"
+    ov = {"Ops": '{"CALL", "STOP", "REVERT"}', "CallKinds": frame.ALLK, "Targets": '{"a", "b", "pw"}', "Values": "{0}",
+          "MaxInstr": "3", "MaxNodes": "3" if q else "4", "MaxFailPos": "0", "JPInit": "{FALSE}", "MaxTop": "1" if q else "2"}
+    frame.INV["C14"] = ["TypeOK", "NoCrash", "CtxWriteAttr"]
+    rr = frame.replay(v, "C14", ov, ["London"] if q else ["Berlin", "Cancun"], 1500)
+    v.notes["frame_scenarios"] = {"overrides": ov, "scenarios": rr["scenarios"], "mismatching_components": rr.get("byComp")}
     v.cov["exhaustive"] = True
     v.cov["rule"] = ("every vector of Precompile.tla: 0x66 payloads of 128..320 bytes x head words {0,32,..,320, 2^63, 2^64-32, 2^64-1, 2^64, 2^256-1}^2 x length words "
                      "{0,1,32,33,64,65,224, 2^31..2^256-1}^2 plus truncated lengths; 0x64 and 0x65 payload lengths around their minimum; each precompile x "
